@@ -19,6 +19,7 @@ from dissect.hypervisor.disk.c_qcow2 import (
     QCow2ClusterType,
     QCow2SubclusterType,
     c_qcow2,
+    cto,
     ctz,
 )
 from dissect.hypervisor.exceptions import Error, InvalidHeaderError
@@ -460,10 +461,10 @@ def get_subcluster_range_type(
     sc_mask = (1 << sc_from) - 1
     if sc_type == QCow2SubclusterType.QCOW2_SUBCLUSTER_NORMAL:
         val = l2_bitmap | sc_mask  # QCOW_OFLAG_SUB_ALLOC_RANGE(0, sc_from)
-        return sc_type, ctz(val, 32) - sc_from
+        return sc_type, cto(val, 32) - sc_from
     if sc_type in ZERO_SUBCLUSTER_TYPES:
-        val = (l2_bitmap | sc_mask) >> 32  # QCOW_OFLAG_SUB_ZERO_RANGE(0, sc_from)
-        return sc_type, ctz(val, 32) - sc_from
+        val = (l2_bitmap | (sc_mask << 32)) >> 32  # QCOW_OFLAG_SUB_ZERO_RANGE(0, sc_from)
+        return sc_type, cto(val, 32) - sc_from
     if sc_type in UNALLOCATED_SUBCLUSTER_TYPES:
         # We need to mask it with a 64bit mask because Python flips the sign bit
         inv_mask = ~sc_mask & ((1 << 64) - 1)  # ~QCOW_OFLAG_SUB_ALLOC_RANGE(0, sc_from)
